@@ -30,6 +30,8 @@ MB = "built-system-matches-definition"
 MR = "ill-formed-definition-refused"
 MD = "dimension-files"
 
+# labels that coincide with the dimension's own letter or look like its name (only the NAME as first cell is a header)
+OWN_LETTER = [["r", "q", "z"], ["x", "r", "y"], ["Region", "b", "c"], ["regions", "region ", "r"]]
 HOSTILE = [["EU", "NA", "SA"], ["01", "02", "10"], ["a,b", "c d", 'q"r'], ["null", "x", "y"], [" lead", "trail ", "mid dle"], ["1e3", "2e3", "abc"], ["True", "False", "maybe"]]
 ALTERED_BY_CSV_INFERENCE = {"NA", "null", "NULL", "nan", "NaN", "N/A", "n/a", "", "None", "<NA>", "#N/A", "NULL", "-nan", "-NaN", "1.#IND", "1.#QNAN", "#NA", "#N/A N/A", "-1.#IND", "-1.#QNAN"}
 
@@ -268,6 +270,26 @@ def hostile_case(rec, hub, rng, tmpdir, i):
                 rec.violation(MD, mech, {"labels": labels, "got": got, "route": route, "style": style})
 
 
+def own_letter_case(rec, hub, rng, tmpdir, i):
+    """items equal to the dimension's letter (or resembling its name) are items, not headers"""
+    fd = hub.fd
+    labels = list(OWN_LETTER[i % len(OWN_LETTER)])
+    definition = fd.DimensionDefinition(name="region", letter="r", dtype=str)
+    for route in ("csv", "xlsx"):
+        for style in (("row", False), ("column", False), ("column", True), ("row", True)):
+            path = os.path.join(tmpdir, f"o_{i}_{style[0]}_{int(style[1])}.{route}")
+            write_dimension_file(path, "region", labels, style, xlsx=(route == "xlsx"))
+            reader = fd.CSVDimensionReader(dimension_files={"region": path}) if route == "csv" else fd.ExcelDimensionReader(dimension_files={"region": path})
+            rec.event(MD, sig=f"own-letter|{route}|{style}|{i % len(OWN_LETTER)}", cls=f"dimension-file|item-equals-letter|{route}")
+            try:
+                got = list(reader.read_dimension(definition).items)
+            except Exception as e:
+                rec.violation(MD, f"dimension-file:raised-for-items-resembling-letter-or-name:{route}", {"labels": labels, "style": style, "exc": f"{type(e).__name__}: {str(e)[:200]}"})
+                continue
+            if got != labels:
+                rec.violation(MD, "dimension-file:item-equal-to-letter-or-resembling-name-was-dropped-or-altered", {"labels": labels, "got": got, "route": route, "style": style})
+
+
 def refusals(rec, hub, rng, d):
     fd = hub.fd
     dims = SY.fd_dims(fd, d)
@@ -319,6 +341,8 @@ def one(rec, hub, seed, tier, i, tmpdir):
         files_case(rec, hub, rng, tier, d, tmpdir, i)
         if tier == "thorough" or i % 9 == 2:
             hostile_case(rec, hub, rng, tmpdir, i // 3)
+        if tier == "thorough" or i % 9 == 5:
+            own_letter_case(rec, hub, rng, tmpdir, i // 3)
 
 
 def run(rec, hub, tier, seed, shard, nshards, budget):
